@@ -400,13 +400,60 @@ func ruleWatcherReportsCtxErr(c *chk.Ctx, owner string) {
 func ruleHeaderLoopExits(c *chk.Ctx) {
 	for _, f := range pkgFuncs(c, c.M.ChanPkg) {
 		var rd *ssa.Call
+		var lineHelper *ssa.Function
+		isLineRead := func(cc *ssa.CallCommon) bool {
+			return ir.IsCallTo(cc, "(*bufio.Reader).ReadString", "(*bufio.Reader).ReadLine", "(*bufio.Reader).ReadBytes")
+		}
 		ir.Instrs(f, func(ins ssa.Instruction) {
-			if call, ok := ins.(*ssa.Call); ok && ir.IsCallTo(&call.Call, "(*bufio.Reader).ReadString", "(*bufio.Reader).ReadLine", "(*bufio.Reader).ReadBytes") && ir.InCycle(call.Block()) {
-				rd = call
+			call, ok := ins.(*ssa.Call)
+			if !ok || !ir.InCycle(call.Block()) {
+				return
+			}
+			if isLineRead(&call.Call) {
+				rd, lineHelper = call, nil
+				return
+			}
+			// or a private helper that reads (and trims) one header line per call
+			if g := call.Call.StaticCallee(); g != nil && c.P.InRepo[g] && !ir.Exported(g) && g != f && rd == nil {
+				reads, loops := false, false
+				c.P.ExtInstrs(g, func(i2 ssa.Instruction) {
+					if c2, ok := i2.(*ssa.Call); ok && isLineRead(&c2.Call) {
+						reads = true
+						if ir.InCycle(c2.Block()) {
+							loops = true
+						}
+					}
+				})
+				if reads && !loops {
+					rd, lineHelper = call, g
+				}
 			}
 		})
 		if rd == nil {
 			continue
+		}
+		// trimmed(v): v is the line with its terminator trimmed off — a Trim call, or the line
+		// helper's result, which on every successful return is one
+		trimmed := func(v ssa.Value) bool {
+			if call, ok := v.(*ssa.Call); ok && ir.IsCallTo(&call.Call, "strings.TrimRight", "strings.TrimSpace", "strings.TrimSuffix") {
+				return true
+			}
+			if lineHelper == nil || !(ir.IsExtractOf(v, rd, 0) || v == ssa.Value(rd)) {
+				return false
+			}
+			all, some := true, false
+			for _, r := range effectiveReturns(c, lineHelper, 0) {
+				last := len(r.Results) - 1
+				if last > 0 && !ir.IsNilConst(ir.ReturnResult(r, last)) {
+					continue
+				}
+				some = true
+				call, ok := ir.ReturnResult(r, 0).(*ssa.Call)
+				if !ok || !ir.IsCallTo(&call.Call, "strings.TrimRight", "strings.TrimSpace", "strings.TrimSuffix") {
+					all = false
+				}
+			}
+			return all && some
 		}
 		hdr := loopHeaderOf(rd.Block())
 		if hdr == nil {
@@ -435,10 +482,8 @@ func ruleHeaderLoopExits(c *chk.Ctx) {
 				blank := false
 				for _, cd := range ir.EdgeConds(b, s) {
 					if bo, ok := cd.V.(*ssa.BinOp); ok && bo.Op == token.EQL && cd.Truth {
-						if k, isK := constString(bo.Y); isK && k == "" {
-							if call, ok := bo.X.(*ssa.Call); ok && ir.IsCallTo(&call.Call, "strings.TrimRight", "strings.TrimSpace", "strings.TrimSuffix") {
-								blank = true
-							}
+						if k, isK := constString(bo.Y); isK && k == "" && trimmed(bo.X) {
+							blank = true
 						}
 					}
 				}
@@ -675,6 +720,7 @@ func ruleEncoderOneOf(c *chk.Ctx) {
 			continue
 		}
 		blocks := map[string]*ssa.BasicBlock{}
+		innerBlocks := map[string]*ssa.BasicBlock{}
 		// the member's name may be chosen by a private helper that returns it (with the value)
 		// as a field of a small record: one name per return of the helper, one write of the field
 		chosen := map[string]*ssa.Return{}
@@ -683,7 +729,11 @@ func ruleEncoderOneOf(c *chk.Ctx) {
 			if s, ok := constString(em.arg); ok {
 				for _, k := range []string{"method", "result", "error"} {
 					if strings.Contains(s, `"`+k+`"`) || s == k {
+						// (where the write is made from the encoder, and where the write itself sits:
+						// inside a private helper that writes all three, they are told apart by the
+						// helper's own branches)
 						blocks[k] = em.at.Block()
+						innerBlocks[k] = em.inner.Block()
 					}
 				}
 				continue
@@ -723,14 +773,18 @@ func ruleEncoderOneOf(c *chk.Ctx) {
 			continue // a wrapper around the function that writes the members
 		}
 		found = true
-		ok := len(blocks) == 3
-		for a, ba := range blocks {
-			for b, bb := range blocks {
-				if a != b && (ba == bb || reachesWithout(ba, bb, nil)) {
-					ok = false
+		exclusive := func(m map[string]*ssa.BasicBlock) bool {
+			ok := len(m) == 3
+			for a, ba := range m {
+				for b, bb := range m {
+					if a != b && (ba == bb || ba.Parent() != bb.Parent() || reachesWithout(ba, bb, nil)) {
+						ok = false
+					}
 				}
 			}
+			return ok
 		}
+		ok := exclusive(blocks) || exclusive(innerBlocks)
 		c.Check(ok, "TABLE.oneof", f, "exactly one of method / result / error", f.Pos(), "the three member writes are on mutually exclusive branches", "the encoder can write more than one of the method, result and error members into one message (or one of the three writes is missing)")
 	}
 	if !found {
